@@ -25,6 +25,15 @@ def full_device_jobs(rng, n, extra=(), maximages="1500"):
     return jobs
 
 
+def wide_batch_jobs(rng, n):
+    """Batches of more than 60 records: the allocation-journal image is longer than one 512-byte sector,
+    so a crash can tear the slot write (the slot then fails its checksum).  Crash images at
+    acknowledgements and at every journal write, with the torn variant."""
+    return [("wide%d" % i, ["--seed", str(rng.randrange(1 << 30)), "--steps", "30", "--fmt", str([3, 3, 2][i % 3]), "--blocks", "300",
+                            "--cpus", "2", "--keys", "70", "--ttl", "1", "--end", "drop", "--flushpct", "5", "--maximages", "150",
+                            "--wide", "66", "--wideevery", "10", "--cc", "4"]) for i in range(n)]
+
+
 def run_workloads(fxv, rd, jobs, par=8):
     """jobs: list of (tag, [args]). Each workload records a trace incl. real recoveries."""
     shm = v.shm_dir("crash")
@@ -93,6 +102,33 @@ def context(trace, idx, n=6):
     return [l[:260] for l in lines[lo:idx]]
 
 
+def stale_chain_at(trace, idx):
+    """Device state (all writes issued so far) at event idx: a block holding a complete retirement
+    marker with remaining n > 1 while a block behind it, inside its extent, has been rewritten with
+    record data since (the marker head is stale: its extent was partly reallocated)."""
+    blk = {}
+    for n, line in enumerate(open(trace), 1):
+        if n > idx:
+            break
+        if '"e":"w"' not in line and '"e": "w"' not in line:
+            continue
+        try:
+            w = json.loads(line)["w"]
+        except Exception:
+            continue
+        if w.get("kind") != "d":
+            continue
+        for o, c in enumerate(w["c"]):
+            blk[w["at"] + o] = c
+    for b, c in blk.items():
+        if c["t"] == "M" and c["n"] > 1 and c["i"] == 1:
+            for j in range(1, c["n"]):
+                t = blk.get(b + j)
+                if t is not None and t["t"] in ("H", "T"):
+                    return (b, c["n"], b + j)
+    return None
+
+
 def classify_violation(r, trace):
     """Build (what, key) for a TraceDisk invariant violation."""
     idx, ev = locate(r, trace)
@@ -119,6 +155,11 @@ def classify_violation(r, trace):
     key = "%s %s" % (inv, cflags)
     if fresh and (inv in ("CrashOpens", "RealOpens")):
         key = "fresh-device-metadata-not-synced: %s" % inv
+    if idx and (inv in ("CrashNoGhost", "RealNoGhost", "RepairsSafe")) :
+        sc = stale_chain_at(trace, idx)
+        if sc:
+            key = ("stale-marker-chain: a free block still holds a complete retirement marker whose extent reaches into "
+                   "blocks reallocated since (%s); marker at block %d remaining %d, block %d rewritten" % (inv, sc[0], sc[1], sc[2]))
     what = "%s cflags=%s at event %s of %s: %s%s" % (inv, cflags, idx, os.path.basename(trace),
                                                      (ev or "")[:200], detail)
     return what, key, idx
